@@ -89,7 +89,7 @@ func lookupFieldTags(field reflect.StructField, parentJSONName string, config *D
 		skip := false
 		jsonName := parentJSONName + "." + field.Name
 		if tag == jsonTag {
-			jsonName = parentJSONName + "." + tagValue
+			jsonName = parentJSONName + "." + escapeJSONName(tagValue)
 		}
 		if tagValue == "-" {
 			skip = true
@@ -118,6 +118,38 @@ func lookupFieldTags(field reflect.StructField, parentJSONName string, config *D
 	}
 
 	return tagInfos, newParentJSONName, needValidate
+}
+
+// JSONName joins the names on the way to a field with '.'; a '.' (or '\') that is part
+// of a name is escaped with '\', so that the key "user.name" is not taken for the
+// member "name" of an object "user".
+func escapeJSONName(name string) string {
+	if !strings.ContainsAny(name, `.\`) {
+		return name
+	}
+	return strings.NewReplacer(`\`, `\\`, `.`, `\.`).Replace(name)
+}
+
+// splitJSONName gives the names a JSONName was joined from.
+func splitJSONName(jsonName string) []string {
+	if !strings.Contains(jsonName, `\`) {
+		return strings.Split(jsonName, ".")
+	}
+	var names []string
+	var cur []byte
+	for i := 0; i < len(jsonName); i++ {
+		switch c := jsonName[i]; {
+		case c == '\\' && i+1 < len(jsonName):
+			i++
+			cur = append(cur, jsonName[i])
+		case c == '.':
+			names = append(names, string(cur))
+			cur = cur[:0]
+		default:
+			cur = append(cur, c)
+		}
+	}
+	return append(names, string(cur))
 }
 
 func getDefaultFieldTags(field reflect.StructField, parentJSONName string) (tagInfos []TagInfo, newParentJSONName string) {
